@@ -1419,6 +1419,7 @@ def explore_c05(ctx, res, replay_ops=None):
 
 def explore_c16(ctx, res, replay_ops=None):
     r = _ber_run(ctx, res, replay_ops, n_for(ctx, 400, 5000))
+    z0_q, z0_i = [], []     # accepted inputs, to be asked: is this a zero-length primitive element? (Ber.zeroLenPrim)
     for i, (op, im) in enumerate(zip(r.ops, r.impl)):
         t = op.split(" ")
         if t[1] == "V":
@@ -1457,10 +1458,22 @@ def explore_c16(ctx, res, replay_ops=None):
         if it[0] not in ("ok", "err"):
             res.violation("oracle", "C16: Unmarshal %s on arbitrary octets%s" % (it[0], " (%s)" % r.crash_info.get(i, "") if it[0] == "crash" else ""),
                           [op[:20000], "# impl: " + im[:200]])
+        elif it[0] == "ok" and len(t) > 4:
+            z0_q.append("ber z0 %s %s %s" % (t[2], t[3], arg if arg else "-"))
+            z0_i.append(i)
         res.nontrivial.add(op)
         if len(res.samples) < 6 and len(op) < 300:
             res.sample({"op": op, "impl": im[:120]})
     _ber_smallest_first(res)
+    # --- "zero-length primitive input is reported as an error": no accepted input may be one (predicate Ber.zeroLenPrim,
+    #     evaluated by the Lean driver; Props.C16.C16_zeroLenPrim_is_error proves the model rejects them all)
+    if z0_q:
+        for q, i, a in zip(z0_q, z0_i, core.driver_run(z0_q)):
+            if a == "1":
+                res.dist["zero-length-primitive-accepted"] += 1
+                res.violation("oracle", "C16: a BOOLEAN/INTEGER/ENUMERATED/BIT STRING element whose length octets say 0 was accepted as a value "
+                              "(octets behind the element taken for its content)", [r.ops[i][:2000], "# impl: " + r.impl[i][:200]])
+        res.extra["accepted_inputs_checked_for_zero_length_primitive"] = len(z0_q)
     res.rule = ("octet strings decoded under recover() with a 10 s deadline: the empty string, every 1-octet and a lattice of 2-octet "
                 "strings into 7 primitive targets (thorough: all 1- and a finer lattice of 2-octet strings), and truncations, single-bit flips, "
                 "rewritten length octets (00,7f,80,81,82,83,84,ff), appended octets, deletions and random strings against valid encodings of "
